@@ -580,3 +580,25 @@ def membership_view(test: ast.expr):
         if isinstance(test.ops[0], ast.Eq):
             return unparse(test.left), [test.comparators[0]]
     return None
+
+
+def folded_chain(fn: FuncInfo) -> list[ast.stmt]:
+    """The function body (a copy) with guard clauses (`if c: return a` / `return b`) folded back into one if/elif/else chain, so
+    that a rule reads an elif chain and a sequence of early returns as the same decision list."""
+    import copy
+    from engine.normalize import _structure_returns
+    body = [s_ for s_ in copy.deepcopy(fn.node.body) if not (isinstance(s_, ast.Expr) and isinstance(s_.value, ast.Constant))]
+    return _structure_returns(body) or body
+
+
+def source_order(root: ast.AST) -> dict[int, int]:
+    """id(node) -> position in a pre-order walk of `root` (the order the code is written in; line numbers alone do not order
+    statements that the normaliser moved to one line)."""
+    out: dict[int, int] = {}
+
+    def rec(n):
+        out[id(n)] = len(out)
+        for c in ast.iter_child_nodes(n):
+            rec(c)
+    rec(root)
+    return out
